@@ -94,6 +94,7 @@ func (u *controlUnit) cycle(cycle int) {
 	}
 
 	for !u.pendings.IsFull() {
+		u.ctx.VerifTick(6, cycle)
 		runner, exists := u.inBus.Get()
 		if !exists {
 			return
